@@ -476,6 +476,19 @@ def _em(d, ctx, kind, **kw):
                     ok, f = _match_permuted(exp_aff, exp_q, aff, q, case.K, tol)
                     require(ok, 'e-step-is-not-a-common-permutation-of-the-bayes-posterior',
                             f'iteration {it} bin {f}', kind=kind)
+                    # ... and it is the permutation the aligner prescribes for
+                    # that posterior (judged when the decision is stable
+                    # against a 1e-9 perturbation of the posterior)
+                    kft = np.transpose(exp_aff, (1, 0, 2))
+                    m0 = np.asarray(aligner.calculate_mapping(kft.copy()))
+                    m1 = np.asarray(aligner.calculate_mapping(
+                        kft * (1 + 1e-9 * np.cos(np.arange(kft.size)).reshape(kft.shape))))
+                    if np.array_equal(m0, m1):
+                        exp_al = np.transpose(aligner.apply_mapping(kft, m0), (1, 0, 2))
+                        require_close(aff, exp_al, 'inline-alignment-not-applied-to-the-e-step',
+                                      atol=tol, what=f'iteration {it} of {case.iterations}',
+                                      kind=kind)
+                        ctx.label('alignment-checked')
                 else:
                     require_close(aff, exp_aff, 'e-step-is-not-the-bayes-posterior',
                                   atol=tol, what=f'iteration {it}', kind=kind)
@@ -505,6 +518,14 @@ def _em(d, ctx, kind, **kw):
             compare_mstep(case, nxt, mstep_oracle(case, aff, q), it)
     ctx.nontrivial(case.K >= 2 and (case.iterations >= 2
                                     or case.meta.get('saliency') != 'none'))
+
+
+@subcheck(SUBCHECKS, 'em_alternation_with_aligner', quick=160, thorough=2500)
+def em_alternation_with_aligner(d, ctx):
+    """scenes with a real frequency permutation problem and an inline
+    aligner: every E-step handed to an M-step is the aligned Bayes posterior"""
+    _em(d, ctx, d.choice(['cacgmm', 'cacgmm', 'cwmm']), max_K=3, max_D=4,
+        force_aligner=True, allow_mask=False)
 
 
 def _make_em(kind, quick, thorough, **kw):
